@@ -19,8 +19,20 @@ func runGrandpa(k *kernel.K) {
 	} else {
 		s.n = k.Range(4, 7, "voters")
 	}
+	// targeted runs (swarm): the smallest network in which one Byzantine voter matters, two forks of
+	// similar length, and an adversary that mostly splits its votes between the forks
+	s.targeted = k.Prop != "C18" && k.Bool(1, 3, "targeted-split-attack")
+	if s.targeted {
+		s.n = 4
+	}
+	// crash-restarts are a swarm knob: a voter restarted in the middle of a round may vote twice in
+	// it (see recordOwnVote), which takes the run outside the premise of C22, so most runs go without
+	s.crashes = k.Bool(1, 3, "crash-restarts-enabled")
 	maxByz := (s.n - 1) / 3
 	nbyz := k.Choose(maxByz+1, "byzantine")
+	if s.targeted {
+		nbyz = 1
+	}
 	if k.Prop == "C18" {
 		nbyz = k.Choose(s.n, "adversary-keys") // the commit verifier must hold whatever keys the sender controls
 	}
@@ -44,8 +56,15 @@ func runGrandpa(k *kernel.K) {
 		salt++
 		tip = s.produce(tip, salt)
 	}
-	for i, f := 0, k.Choose(3, "forks"); i < f; i++ {
+	nforks := k.Choose(3, "forks")
+	if s.targeted {
+		nforks = 1
+	}
+	for i, f := 0, nforks; i < f; i++ {
 		p := s.blocks[k.Choose(len(s.blocks), "fork-parent")]
+		if s.targeted {
+			p = s.blocks[1+k.Choose(2, "fork-parent-low")]
+		}
 		for j, d := 0, 1+k.Choose(3, "fork-len"); j < d; j++ {
 			salt++
 			p = s.produce(p, salt)
@@ -111,7 +130,7 @@ func runGrandpa(k *kernel.K) {
 		default:
 			if k.Bool(1, 4, "partition-or-heal") {
 				s.partition()
-			} else if k.Bool(1, 6, "crash") {
+			} else if s.crashes && k.Bool(1, 2, "crash") {
 				n := s.pickHonest("crash-node")
 				k.Fault("crash-restart")
 				k.Event("crash-restart", "n%d", n.id)
@@ -195,10 +214,26 @@ func (s *gsim) checkSafety() {
 	if k.Prop == "C18" && s.adversaryKeys()*3 >= s.n {
 		return // the adversary holds a third or more: safety is not promised
 	}
+	faulty := s.adversaryKeys()
+	for _, n := range hs {
+		if n.amnesiac {
+			faulty++
+		}
+	}
+	if faulty*3 >= s.n {
+		// voters that equivocated (Byzantine ones, and restarted ones that voted twice in a round)
+		// hold a third or more of the weight: outside the premise of C22
+		k.Probe("safety-premise-lost-to-restarted-voters")
+		return
+	}
 	for i := range hs {
 		for j := i + 1; j < len(hs); j++ {
 			if !s.isDesc(heads[i], heads[j]) && !s.isDesc(heads[j], heads[i]) {
-				k.Violate("C22", "safety", "conflicting-finalised-blocks", "node %d finalised %s (#%d) and node %d finalised %s (#%d): different forks",
+				class := "conflicting-finalised-blocks"
+				if s.offEstimate {
+					class += ":after-prevote-off-last-round-estimate"
+				}
+				k.Violate("C22", "safety", class, "node %d finalised %s (#%d) and node %d finalised %s (#%d): different forks",
 					hs[i].id, cu.Short(heads[i]), s.ref.Blocks[heads[i]].Number, hs[j].id, cu.Short(heads[j]), s.ref.Blocks[heads[j]].Number)
 			}
 		}
@@ -237,7 +272,7 @@ func (n *gnode) advance() {
 		}
 		if done {
 			k.Event("already-finalised", "n%d round=%d", n.id, svc.VerifRound())
-			n.phase = 0
+			n.leaveRound()
 			return
 		}
 		isPrimary, err := svc.VerifHandleIsPrimary()
@@ -259,12 +294,19 @@ func (n *gnode) advance() {
 			svc.VerifStoreOwnVote(gp.VerifPrevote, spv)
 		}
 		n.mVotes[0][pkb(n.s.keys[n.id])] = *pv
+		n.recordOwnVote(0, pv)
 		if err := svc.VerifSendPrevoteMessage(vm); err != nil {
 			k.Event("error", "n%d send: %v", n.id, err)
 		}
 		// honest votes are on a known block descending from the finalised head
 		if !n.has[pv.Hash] || !n.s.isDesc(svc.VerifHead().Hash(), pv.Hash) {
 			k.Violate("C21", "prevote-choice", "prevote-not-on-finalised-chain", "node %d prevoted %s (#%d) which it does not hold below its finalised head %s", n.id, cu.Short(pv.Hash), pv.Number, cu.Short(svc.VerifHead().Hash()))
+		}
+		if e := n.lastEst; e != nil && n.lastEstRound+1 == svc.VerifRound() && !n.s.isDesc(e.Hash, pv.Hash) {
+			// GRANDPA: the prevote of round r+1 is on the best chain containing the estimate of round r
+			n.s.offEstimate = true
+			k.Probe("prevote-not-on-chain-of-last-round-estimate")
+			k.Event("off-estimate", "n%d round=%d prevotes %s, estimate of round %d was %s #%d", n.id, svc.VerifRound(), cu.Short(pv.Hash), n.lastEstRound, cu.Short(e.Hash), e.Number)
 		}
 		k.Event("prevote", "n%d round=%d %s #%d primary=%v", n.id, svc.VerifRound(), cu.Short(pv.Hash), pv.Number, isPrimary)
 		n.phase = 2
@@ -275,7 +317,7 @@ func (n *gnode) advance() {
 		}
 		if done {
 			k.Event("already-finalised", "n%d round=%d", n.id, svc.VerifRound())
-			n.phase = 0
+			n.leaveRound()
 			return
 		}
 		ghost, err := svc.VerifGetPreVotedBlock()
@@ -318,6 +360,7 @@ func (n *gnode) advance() {
 		}
 		svc.VerifStoreOwnVote(gp.VerifPrecommit, spc)
 		n.mVotes[1][pkb(n.s.keys[n.id])] = *pc
+		n.recordOwnVote(1, pc)
 		svc.VerifSendPrecommitMessage(vm)
 		k.Event("precommit", "n%d round=%d %s #%d", n.id, svc.VerifRound(), cu.Short(pc.Hash), pc.Number)
 		n.phase = 3
@@ -328,7 +371,7 @@ func (n *gnode) advance() {
 		}
 		if done {
 			k.Event("already-finalised", "n%d round=%d", n.id, svc.VerifRound())
-			n.phase = 0
+			n.leaveRound()
 			return
 		}
 		before := svc.VerifHead().Hash()
@@ -360,7 +403,30 @@ func (n *gnode) advance() {
 			svc.VerifGossip(cm)
 		}
 		k.Event("finalise", "n%d round=%d %s", n.id, svc.VerifRound(), cu.Short(fin))
-		n.phase = 0
+		n.leaveRound()
+	}
+}
+
+// leaveRound: the node is done with its round. The model notes the round's estimate in the sense of
+// the GRANDPA paper: the highest ancestor of the prevote GHOST for which a supermajority of
+// precommits is still possible given the precommits counted so far. It is only used to tell apart
+// the causes of a safety violation (see checkSafety), never as an oracle of its own.
+func (n *gnode) leaveRound() {
+	n.phase = 0
+	n.lastEst, n.lastEstRound = nil, n.svc.VerifRound()
+	g, unique := n.modelGhost(0)
+	if g == nil || !unique {
+		return
+	}
+	unseen := n.s.n - len(n.mVotes[1]) - len(n.mEqv[1])
+	for b := g; b != nil; b = n.s.ref.Blocks[b.Parent] {
+		if n.s.threshold2of3(n.modelWeight(1, b.Hash) + unseen) {
+			n.lastEst = b
+			return
+		}
+		if b.Number == 0 {
+			return
+		}
 	}
 }
 
